@@ -184,10 +184,19 @@ CSig(dk, d, R, pats) ==
 RecordedPaths(hs, H) ==    \* history.set_of_file_paths over the visible histories, absolute
   UNION {{h \o rp : rp \in UNION {DOMAIN hs[h][i].files \cup DOMAIN hs[h][i].dirs : i \in DOMAIN hs[h]}}
          : h \in H \cap DOMAIN hs}
-RenameMap(hs, H) ==        \* renamed_path_with_previous_path: previous path -> new path
-  UNION {UNION {{<<h \o hs[h][i].files[rp].prev, h \o rp>> :
-                   rp \in {q \in DOMAIN hs[h][i].files : hs[h][i].files[q].prev # NoPath}}
-                : i \in DOMAIN hs[h]} : h \in H \cap DOMAIN hs}
+\* renamed_path_with_previous_path: previous path -> latest path.  Generations are processed in
+\* order; a later rename of the same file re-points every former name to the newest one.
+GenRenames(h, g) == {<<h \o g.files[rp].prev, h \o rp>> : rp \in {q \in DOMAIN g.files : g.files[q].prev # NoPath}}
+HistRenames(hs, h) ==
+  LET gens == hs[h]
+      RECURSIVE G(_, _)
+      G(i, acc) == IF i > Len(gens) THEN acc
+                   ELSE LET R2 == GenRenames(h, gens[i])
+                            re(v) == IF \E m \in R2 : m[1] = v THEN (CHOOSE m \in R2 : m[1] = v)[2] ELSE v
+                            kept == {<<m[1], re(m[2])>> : m \in {x \in acc : ~\E y \in R2 : y[1] = x[1]}}
+                        IN G(i + 1, kept \cup R2)
+  IN G(1, {})
+RenameMap(hs, H) == UNION {HistRenames(hs, h) : h \in H \cap DOMAIN hs}
 Expected(hs, H) ==         \* the expected-path set rewritten through the rename map (one step)
   LET rm == RenameMap(hs, H)
   IN  {IF \E m \in rm : m[1] = p THEN (CHOOSE m \in rm : m[1] = p)[2] ELSE p : p \in RecordedPaths(hs, H)}
@@ -474,6 +483,13 @@ FirstContent(pre, dk, R, p) ==
   IN FindOriginal(GensOf(pre, h), Rel(h, p))
 EverRecorded(pre, dk, R) == RecordedPaths(pre, Visible(pre, dk, R))
 HasRenames(pre, dk, R)   == RenameMap(pre, Visible(pre, dk, R)) # {}
+\* named deviation Dev_F17 (known_findings.json): when two recorded paths of a history hold the same
+\* first content and one of them is gone, create -dr lets one new file stand for both missing paths
+\* but can store only one previous path; the run exits 0 and the next run reports the other missing.
+AmbiguousRecorded(pre, dk, R) ==
+  \E p, q \in EverRecorded(pre, dk, R) :
+     /\ p # q /\ p \notin DOMAIN dk
+     /\ FirstContent(pre, dk, R, p).f # "none" /\ FirstContent(pre, dk, R, p).c = FirstContent(pre, dk, R, q).c
 P_C03_Altered(pre, dk, op, ob, ign) ==
   (op.op \in {"create", "verify"} /\ Len(GensOf(pre, op.R)) > 0 /\ ~HasRenames(pre, dk, op.R))
     => LET alt == {p \in NonIgn(dk, op.R, ign) : dk[p] # "DIR" /\
@@ -641,4 +657,35 @@ UniformFormats(hs, dk, R) ==
       F == VerifyDHFormats(hs, H)
   IN \A h \in H \cap DOMAIN hs : \A i \in DHGens(hs, h) : hs[h][i].root.fmts = F
 P_C09_NoInternal(op, ob) == op.op = "verifydh" => (~ob.internal /\ ob.exit \in {0, 12})
+
+\* ---- C17 -------------------------------------------------------------------------------
+\* recorded files that are gone, paired with unrecorded files that hold their (distinct) content
+Moves(pre, dk, R) ==
+  LET H    == Visible(pre, dk, R)
+      gone == {p \in Expected(pre, H) : p \notin DOMAIN dk /\ FirstContent(pre, dk, R, p).f # "none"}
+      new  == {q \in DOMAIN dk : Below(R, q) /\ dk[q] # "DIR" /\ FirstContent(pre, dk, R, q).f = "none"}
+  IN {<<p, q>> \in gone \X new : FirstContent(pre, dk, R, p).c = dk[q]}
+DistinctFiles(dk, R) == \A p, q \in {x \in DOMAIN dk : Below(R, x) /\ dk[x] # "DIR"} : p # q => dk[p] # dk[q]
+P_C17_Renamed(pre, post, dk, op, ob, ign) ==
+  (op.op = "create" /\ op.dr /\ ob.exit \in {0, 10, 11} /\ Len(GensOf(pre, op.R)) > 0
+     /\ Visible(pre, dk, op.R) = {op.R} /\ DistinctFiles(dk, op.R)
+     \* each gone file matches one new file and vice versa (recorded contents pairwise distinct too)
+     /\ \A m1, m2 \in Moves(pre, dk, op.R) : (m1[1] = m2[1] \/ m1[2] = m2[2]) => m1 = m2)
+    => LET M == {m \in Moves(pre, dk, op.R) : m[1] \notin ign /\ m[2] \notin ign}
+           g == Last(post[op.R])
+       IN /\ \A m \in M : /\ Rel(op.R, m[2]) \in DOMAIN g.files
+                            /\ g.files[Rel(op.R, m[2])].prev = Rel(op.R, m[1])
+                            /\ m[1] \notin ob.missing
+          \* nothing else is wrong => the run succeeds
+          /\ ((\A p \in Expected(pre, {op.R}) : p \in DOMAIN dk \/ p \in ign \/ \E m \in M : m[1] = p)
+               /\ (\A q \in NonIgn(dk, op.R, ign) : dk[q] # "DIR" =>
+                      LET o == FirstContent(pre, dk, op.R, q) IN o.f = "none" \/ o.c = dk[q]))
+              => ob.exit = 0
+\* verify still fails when a renamed file's content was changed as well
+P_C17_Altered(pre, dk, op, ob, ign) ==
+  (op.op = "verify" /\ Len(GensOf(pre, op.R)) > 0 /\ HasRenames(pre, dk, op.R))
+    => LET alt == {p \in NonIgn(dk, op.R, ign) : dk[p] # "DIR" /\
+                     LET o == FirstContent(pre, dk, op.R, p) IN o.f # "none" /\ o.c # dk[p]}
+       IN alt # {} => ob.exit = 11
+P_C17_NoInternal(op, ob) == (op.op = "create" /\ op.dr) => ~ob.internal
 =============================================================================
